@@ -494,8 +494,10 @@ class Dict(dict, base.Symbolic, pg_typing.CustomTyping):
     """Symbolic hashing."""
     return base.sym_hash(
         (self.__class__,
-         tuple([(k, base.sym_hash(v)) for k, v in self.sym_items()
-                if v != pg_typing.MISSING_VALUE])))
+         # Symbolic equality of dicts does not depend on the order of keys,
+         # so the hash does not either.
+         frozenset([(k, base.sym_hash(v)) for k, v in self.sym_items()
+                    if v != pg_typing.MISSING_VALUE])))
 
   def _sym_getattr(  # pytype: disable=signature-mismatch  # overriding-parameter-type-checks
       self, key: Union[str, int]) -> Any:
